@@ -20,4 +20,8 @@ def main(tier):
         jobs, bounds = c11.jobs_update(tier, h, exclude, with_old=False)
         rs, viol = ck.run(grp, jobs, bounds=bounds)
         ck.triage(viol)
+    jobs = [('cmd.VerifC12CompareAll', dict(params={'stale': st, 'github': gh}, unwind=60, timeout_ms=120000, terminal_obligations=(), hooks={'fixed_map_order': True}))
+            for st in range(4) for gh in (0, 1)]
+    rs, viol = ck.run('compare-all', jobs, bounds={'rules': 3, 'stale_rule_position': 'first | middle | last | none', 'output': ['text', 'github']})
+    ck.triage(viol)
     return ck.finish()
